@@ -497,7 +497,7 @@ def run(facts):
         own_init = False
         for bi, t in b.calls():
             fn = callee(t)
-            if fn and fn["name"] == "new" and "tomic" in (fn.get("res") or fn)["path"] and "usize" in ((fn.get("res") or fn).get("full", "")):
+            if fn and fn["name"] == "new" and "tomic" in (fn.get("res") or fn)["path"] and "usize" in ((fn.get("res") or fn).get("full", "")).lower():
                 own_init = True
         if not own_init:
             continue
